@@ -14,6 +14,16 @@ Static part (`ast`, nothing is executed):
   augmented assignment, `global` + assignment, rebinding of a function attribute) and the read sites;
   a cell with at least one run-time write site is an *effect*; the Lean obligation is
   `effects ⊆ cells that have an independence lemma` (Props/C16.lean).
+  level    = where the object lives: module, class, function (function attribute, default argument, lru_cache),
+             closure (a mutable local of a decorator that the wrapper it returns keeps using: one object per decorated
+             function for the whole process), instance;
+  escape sites = places inside function bodies where a module-/class-/closure-level mutable object itself (not an
+             element, not a copy) is returned, assigned, stored in a container or handed to a call that is not a pure
+             consumer - from there on it can be reached (and changed) through a parser's result;
+  instance cells = every attribute bound or mutated through `self` in the classes of midgard/parsers, with: bound in
+             `__init__` of the class or an ancestor / created later (by which method), whether the name falls back to a
+             class-level mutable object (mutation through `self` would then change the class), whether the bound value is a
+             shared object (module/class cell or a mutable default argument).
   file-write sites inside midgard/parsers (open(..., "w"/"a"/"x"/"+"), write_text, write_bytes, unlink,
   rename, replace, rmdir, mkdir, touch, shutil.*, os.remove …) - the obligation is that there are none.
 
@@ -103,6 +113,10 @@ def scan_set() -> Dict[str, pathlib.Path]:
     todo = [modname(p) for p in sorted((REPO / "midgard" / "parsers").glob("*.py"))]
     todo += ["midgard.dev.plugins", "midgard.writers", "midgard.data.fieldtypes", "midgard.files.files",
              "midgard.files.dependencies"]
+    # every module of the packages parsers are built from, imported by a parser today or not: a new cache there is one
+    # import away from a parser
+    for pkg in ("gnss", "files", "dev"):
+        todo += [modname(p) for p in sorted((REPO / "midgard" / pkg).glob("*.py"))]
     while todo:
         m = todo.pop()
         if m in seen:
@@ -158,6 +172,57 @@ def plugin_import_closure() -> Dict[str, List[str]]:
     return clo
 
 
+PURE_CONSUMERS = {"len", "sorted", "list", "dict", "tuple", "set", "frozenset", "iter", "enumerate", "zip", "sum", "min", "max",
+                  "any", "all", "str", "repr", "print", "isinstance", "bool", "reversed", "map", "filter", "array", "asarray",
+                  "join", "format", "OrderedDict", "deepcopy", "type", "id", "hash"}
+
+
+def escape_how(n: ast.AST, parent: Dict[int, ast.AST]) -> Optional[str]:
+    """how the object a bare reference `n` denotes leaves the expression it stands in (None: it does not - it is only
+    indexed, iterated, compared, unpacked, formatted, copied by a pure consumer, or its attribute/method is used)"""
+    pa = parent.get(id(n))
+    if pa is None:
+        return None
+    if isinstance(pa, ast.Attribute) and pa.value is n:
+        return None
+    if isinstance(pa, ast.Subscript):
+        return None if pa.value is n else "index"
+    if isinstance(pa, (ast.Compare, ast.BoolOp, ast.UnaryOp, ast.FormattedValue, ast.JoinedStr, ast.Starred, ast.Expr, ast.Delete,
+                       ast.Assert, ast.BinOp)):
+        return None
+    if isinstance(pa, (ast.If, ast.While, ast.IfExp)) and pa.test is n:
+        return None
+    if isinstance(pa, (ast.For, ast.AsyncFor, ast.comprehension)) and pa.iter is n:
+        return None
+    if isinstance(pa, ast.keyword):
+        if pa.arg is None:
+            return None  # **cell: unpacked into a new mapping
+        call = parent.get(id(pa))
+        return f"argument {pa.arg}= of {ast.unparse(call.func) if isinstance(call, ast.Call) else '?'}"
+    if isinstance(pa, ast.Call):
+        if pa.func is n:
+            return None
+        fn = pa.func
+        nm = fn.id if isinstance(fn, ast.Name) else (fn.attr if isinstance(fn, ast.Attribute) else "")
+        if nm in PURE_CONSUMERS:
+            return None
+        return f"argument of {ast.unparse(fn)}"
+    if isinstance(pa, ast.Return):
+        return "returned"
+    if isinstance(pa, (ast.Yield, ast.YieldFrom)):
+        return "yielded"
+    if isinstance(pa, (ast.Assign, ast.AnnAssign, ast.AugAssign, ast.NamedExpr)):
+        if getattr(pa, "value", None) is n:
+            tg = pa.targets[0] if isinstance(pa, ast.Assign) else pa.target
+            return f"bound to {ast.unparse(tg)}"
+        return None
+    if isinstance(pa, (ast.Dict, ast.List, ast.Tuple, ast.Set)):
+        return "stored in a container literal"
+    if isinstance(pa, ast.withitem):
+        return None
+    return f"used in {type(pa).__name__}"
+
+
 class Cell:
     def __init__(self, cid: str, kind: str, line: int):
         self.id = cid
@@ -165,6 +230,12 @@ class Cell:
         self.line = line
         self.writes: List[str] = []  # "qualname:line"
         self.reads: List[str] = []
+        self.escapes: List[str] = []  # "qualname:line:how"
+
+    @property
+    def level(self) -> str:
+        return {"module": "module", "global": "module", "class": "class", "funcattr": "function", "default": "function",
+                "lrucache": "function", "closure": "closure"}[self.kind]
 
 
 def root_name(e: ast.AST) -> Optional[Tuple[str, List[str]]]:
@@ -194,8 +265,13 @@ class ModuleScan:
         self.class_attrs: Dict[str, Dict[str, str]] = {}  # class → attr → cell id
         self.funcattr: Dict[str, str] = {}  # attr name → cell id (attributes set on function objects)
         self.file_writes: List[str] = []
+        self.closure_cells: Dict[Tuple[str, str], str] = {}  # (outer function, local name) → cell id
+        self.decorator_names: Set[str] = set()  # names used in decorator position in this module
+        self.inst: Dict[str, Dict[str, Dict]] = {}  # class → attribute → {"bind": [(method, line)], "mut": […], "alias": bool, "lazy": […]}
         self.collect_cells()
         self.collect_uses()
+        if self.mod.startswith("midgard.parsers"):
+            self.collect_instance_cells()
 
     def cross_module_class_writes(self, by_attr: Dict[str, List["Cell"]], bases: Dict[str, Set[str]]):
         """`self.<attr>` / `cls.<attr>` mutated in a class of this module where <attr> is a class-level mutable
@@ -331,6 +407,15 @@ class ModuleScan:
                 c = self.add(f"{f.name}@{n}", "lrucache", f.lineno)
                 c.writes.append(f"{f.name}:{f.lineno}")
                 c.reads.append(f"{f.name}:{f.lineno}")
+                # a memo is transparent only for a function of its arguments: flag bodies that look at the file system,
+                # the clock, the environment or a module-level mutable object
+                for x in ast.walk(f):
+                    if isinstance(x, ast.Call):
+                        fn = x.func
+                        nm = fn.id if isinstance(fn, ast.Name) else (fn.attr if isinstance(fn, ast.Attribute) else "")
+                        if nm in {"open", "read_text", "read_bytes", "exists", "stat", "now", "today", "getenv", "glob", "iterdir",
+                                  "urlopen", "time", "listdir", "is_file"}:
+                            c.escapes.append(f"{f.name}:{x.lineno}:memoised function calls {ast.unparse(fn)}")
         local_funcs = {a.arg for a in pos + args.kwonlyargs}
         for n in ast.walk(f):
             # global declarations
@@ -345,6 +430,133 @@ class ModuleScan:
                             and t.value.id != "cls" and t.value.id in local_funcs:
                         c = self.add(f"{f.name}.<{t.value.id}>.{t.attr}", "funcattr", n.lineno)
                         self.funcattr[(f.name, t.value.id, t.attr)] = c.id
+        for d in f.decorator_list:
+            e = d.func if isinstance(d, ast.Call) else d
+            dn = e.id if isinstance(e, ast.Name) else (e.attr if isinstance(e, ast.Attribute) else None)
+            if dn:
+                self.decorator_names.add(dn)
+        self.closure_cells_of(f)
+
+    def closure_cells_of(self, f: ast.FunctionDef):
+        """mutable locals of `f` that a nested function keeps using (writes / reads / escapes counted inside the nested
+        functions only - that is the code that runs later, once per call of the wrapper)"""
+        nested = [n for n in ast.walk(f) if n is not f and isinstance(n, (ast.FunctionDef, ast.AsyncFunctionDef, ast.Lambda))]
+        if not nested:
+            return
+        inner_nodes = {id(x) for g in nested for x in ast.walk(g)}
+        own: Dict[str, int] = {}
+        for n in ast.walk(f):
+            if id(n) in inner_nodes:
+                continue
+            if isinstance(n, (ast.Assign, ast.AnnAssign)) and n.value is not None and is_mutable_expr(n.value):
+                for t in (n.targets if isinstance(n, ast.Assign) else [n.target]):
+                    if isinstance(t, ast.Name):
+                        own[t.id] = n.lineno
+        for name, line in own.items():
+            users = []
+            for g in nested:
+                gargs = g.args
+                glocals = {a.arg for a in gargs.posonlyargs + gargs.args + gargs.kwonlyargs}
+                glocals |= {x.id for x in ast.walk(g) if isinstance(x, ast.Name) and isinstance(x.ctx, ast.Store)}
+                nonlocal_ = {nm for x in ast.walk(g) if isinstance(x, ast.Nonlocal) for nm in x.names}
+                if name in glocals and name not in nonlocal_:
+                    continue
+                if any(isinstance(x, ast.Name) and x.id == name for x in ast.walk(g)):
+                    users.append(g)
+            if not users:
+                continue
+            c = self.add(f"{f.name}.<closure>.{name}", "closure", line)
+            self.closure_cells[(f.name, name)] = c.id
+            for g in users:
+                gq = f"{f.name}.{getattr(g, 'name', '<lambda>')}"
+                parent = {id(ch): pa for pa in ast.walk(g) for ch in ast.iter_child_nodes(pa)}
+                for x in ast.walk(g):
+                    if isinstance(x, ast.Name) and x.id == name:
+                        pa = parent.get(id(x))
+                        if isinstance(x.ctx, ast.Store) or (isinstance(pa, ast.Subscript) and isinstance(pa.ctx, (ast.Store, ast.Del)) and pa.value is x):
+                            c.writes.append(f"{gq}:{x.lineno}")
+                        elif isinstance(pa, ast.Attribute) and pa.attr in MUT_METHODS and isinstance(parent.get(id(pa)), ast.Call):
+                            c.writes.append(f"{gq}:{x.lineno}")
+                        else:
+                            site = f"{gq}:{x.lineno}"
+                            if site not in c.reads:
+                                c.reads.append(site)
+                        how = escape_how(x, parent)
+                        if how and isinstance(x.ctx, ast.Load):
+                            c.escapes.append(f"{gq}:{x.lineno}:{how}")
+
+    # ---- instance cells of parser classes
+    def collect_instance_cells(self):
+        in_class = set()
+        groups = []
+        for cls in [n for n in self.tree.body if isinstance(n, ast.ClassDef)]:
+            ms_ = [n for n in ast.walk(cls) if isinstance(n, (ast.FunctionDef, ast.AsyncFunctionDef))]
+            in_class |= {id(m) for m in ms_}
+            groups.append((cls.name, [m for m in cls.body if isinstance(m, (ast.FunctionDef, ast.AsyncFunctionDef))]))
+        # functions outside classes that take `self` (decorator wrappers such as parser_cache's): pseudo class "*"
+        loose = [n for n in ast.walk(self.tree) if isinstance(n, (ast.FunctionDef, ast.AsyncFunctionDef)) and id(n) not in in_class
+                 and any(a.arg == "self" for a in n.args.posonlyargs + n.args.args)]
+        if loose:
+            groups.append(("*", loose))
+        for cname, methods in groups:
+            rec = self.inst.setdefault(cname, {})
+            for m in methods:
+                mut_defaults = {a.arg for a, d in zip((m.args.posonlyargs + m.args.args)[len(m.args.posonlyargs + m.args.args) - len(m.args.defaults):], m.args.defaults) if is_mutable_expr(d)}
+                for n in ast.walk(m):
+                    if isinstance(n, (ast.Assign, ast.AnnAssign, ast.AugAssign)):
+                        targets = n.targets if isinstance(n, ast.Assign) else [n.target]
+                        flat = []
+                        for t in targets:
+                            flat += list(t.elts) if isinstance(t, (ast.Tuple, ast.List)) else [t]
+                        for t in flat:
+                            if isinstance(t, ast.Attribute) and isinstance(t.value, ast.Name) and t.value.id == "self":
+                                r = rec.setdefault(t.attr, {"bind": [], "mut": [], "alias": False, "lazy": []})
+                                r["bind"].append((m.name, n.lineno))
+                                v = getattr(n, "value", None)
+                                if isinstance(v, ast.Name) and v.id in mut_defaults:
+                                    r["alias"] = True
+                                elif isinstance(v, (ast.Name, ast.Attribute)) and self.resolve_bare(v) is not None:
+                                    r["alias"] = True
+                            elif isinstance(t, ast.Subscript):
+                                rn = root_name(t)
+                                if rn and rn[0] == "self" and rn[1]:
+                                    r = rec.setdefault(rn[1][0], {"bind": [], "mut": [], "alias": False, "lazy": []})
+                                    r["mut"].append((m.name, n.lineno))
+                    elif isinstance(n, ast.Call) and isinstance(n.func, ast.Attribute):
+                        rn = root_name(n.func.value)
+                        if n.func.attr in MUT_METHODS and rn and rn[0] == "self" and rn[1]:
+                            if rn[1][0] == "__dict__":
+                                if n.func.attr == "setdefault" and n.args and isinstance(n.args[0], ast.Constant) and len(rn[1]) == 1:
+                                    r = rec.setdefault(str(n.args[0].value), {"bind": [], "mut": [], "alias": False, "lazy": []})
+                                    r["lazy"].append((m.name, n.lineno))
+                                    r["mut"].append((m.name, n.lineno))
+                            else:
+                                r = rec.setdefault(rn[1][0], {"bind": [], "mut": [], "alias": False, "lazy": []})
+                                r["mut"].append((m.name, n.lineno))
+                        if isinstance(n.func.value, ast.Name) and n.func.value.id == "setattr":
+                            pass
+                    if isinstance(n, ast.Call) and isinstance(n.func, ast.Name) and n.func.id == "setattr" and n.args \
+                            and isinstance(n.args[0], ast.Name) and n.args[0].id == "self":
+                        nm = str(n.args[1].value) if len(n.args) > 1 and isinstance(n.args[1], ast.Constant) else "<dynamic>"
+                        r = rec.setdefault(nm, {"bind": [], "mut": [], "alias": False, "lazy": []})
+                        r["bind"].append((m.name, n.lineno))
+
+    def resolve_bare(self, e: ast.AST) -> Optional[str]:
+        """the cell a bare reference (`NAME`, `self.X`, `cls.X`, `Class.X`) denotes, None for anything else"""
+        r = root_name(e)
+        if r is None:
+            return None
+        name, attrs = r
+        if isinstance(e, ast.Name) and not attrs:
+            return self.module_names.get(name)
+        if isinstance(e, ast.Attribute) and len(attrs) == 1 and isinstance(e.value, ast.Name):
+            if name in ("self", "cls"):
+                for cn, d in self.class_attrs.items():
+                    if attrs[0] in d:
+                        return d[attrs[0]]
+            if name in self.class_attrs and attrs[0] in self.class_attrs[name]:
+                return self.class_attrs[name][attrs[0]]
+        return None
 
     # ---- uses
     def collect_uses(self):
@@ -452,6 +664,16 @@ class ModuleScan:
                     site = f"{qual}:{n.lineno}"
                     if site not in self.cells[cid].reads:
                         self.cells[cid].reads.append(site)
+        parent = {id(ch): pa for pa in ast.walk(f) for ch in ast.iter_child_nodes(pa)}
+        for n in ast.walk(f):
+            if isinstance(n, (ast.Name, ast.Attribute)) and isinstance(getattr(n, "ctx", None), ast.Load):
+                if isinstance(n, ast.Name) and (n.id in local_names and n.id not in globals_declared):
+                    continue
+                cid = self.resolve_bare(n)
+                if cid and self.cells[cid].kind in ("module", "global", "class"):
+                    how = escape_how(n, parent)
+                    if how:
+                        self.cells[cid].escapes.append(f"{qual}:{n.lineno}:{how}")
 
 
 # -------------------------------------------------------------------------------------------------
@@ -569,20 +791,78 @@ def generate() -> Tuple[str, Dict]:
     cells.sort(key=lambda c: c.id)
     effects = [c for c in cells if c.writes]
     plug = load_plugins()
+    # closure cells are process-wide only when the outer function runs at import time: used as a decorator somewhere
+    deco = set()
+    for ms in scans:
+        deco |= ms.decorator_names
+    cells = [c for c in cells if c.kind != "closure" or c.id.split(":")[1].split(".")[0] in deco]
+    effects = [c for c in cells if c.writes]
     rows = []
     for c in cells:
-        rows.append(f"⟨{lean_str(c.id)}, .{c.kind}, {len(c.writes)}, {len(c.reads)}⟩")
+        rows.append(f"⟨{lean_str(c.id)}, .{c.kind}, .{c.level}, {len(c.writes)}, {len(c.reads)}, {len(c.escapes)}⟩")
+    # instance cells of the parser classes
+    cls_mod: Dict[str, str] = {}
+    for ms in scans:
+        for cn in ms.inst:
+            cls_mod.setdefault(cn, ms.mod)
+    class_cells_by_class: Dict[str, Set[str]] = {}
+    for ms in scans:
+        for cn, d in ms.class_attrs.items():
+            class_cells_by_class.setdefault(cn, set()).update(d)
+
+    def mro(cn: str) -> List[str]:
+        seen, todo = [], [cn]
+        while todo:
+            x = todo.pop(0)
+            if x in seen:
+                continue
+            seen.append(x)
+            todo.extend(sorted(bases.get(x, ())))
+        return seen
+
+    inst_rows = []
+    inst_info = {}
+    for ms in scans:
+        for cn, attrs in sorted(ms.inst.items()):
+            chain = mro(cn)
+            for attr, r in sorted(attrs.items()):
+                ctor = any(any(m == "__init__" for m, _ in sc.inst.get(a, {}).get(attr, {"bind": []})["bind"])
+                           for a in chain for sc in scans if a in sc.inst)
+                created = sorted({m for m, _ in r["bind"] + r["lazy"] if m != "__init__"})
+                shadows = (not ctor) and any(attr in class_cells_by_class.get(a, ()) for a in chain)
+                rid = f"{ms.mod}:{cn}.self.{attr}"
+                inst_rows.append(f"⟨{lean_str(rid)}, {'true' if ctor else 'false'}, {lean_str(','.join(created))}, "
+                                 f"{'true' if shadows else 'false'}, {'true' if r['alias'] else 'false'}⟩")
+                inst_info[rid] = {"ctor": ctor, "created_in": created, "shadows_class_cell": shadows, "alias_of_shared": r["alias"]}
     out = []
     out.append("/-\nGENERATED by translator/extract_effects.py from the working tree of midgard - do not edit.\n"
-               "Process-wide mutable state of the modules reachable from parsing (static `ast` scan) and the\n"
-               "plug-in name lists with the kind every listed name resolves to (each one was really loaded).\n-/")
+               "Process-wide mutable state of the modules reachable from parsing (static `ast` scan), the per-object state of\n"
+               "the parser classes, and the plug-in name lists with the kind every listed name resolves to (each one was\n"
+               "really loaded).\n-/")
     out.append("namespace Midgard.Generated.ParserEffects\n")
-    out.append("inductive CellKind where\n  | module | «class» | funcattr | default | global | lrucache\n  deriving DecidableEq, Repr\n")
-    out.append("structure CellRow where\n  id : String\n  kind : CellKind\n  writeSites : Nat\n  readSites : Nat\n  deriving DecidableEq, Repr\n")
+    out.append("inductive CellKind where\n  | module | «class» | funcattr | default | global | lrucache | closure\n  deriving DecidableEq, Repr\n")
+    out.append("/-- where the object lives: one per module, per class, per function object (attribute, default argument, memo),\n"
+               "per decorated function (closure of a decorator), per parser object -/\n"
+               "inductive Level where\n  | module | «class» | function | closure | «instance»\n  deriving DecidableEq, Repr\n")
+    out.append("structure CellRow where\n  id : String\n  kind : CellKind\n  level : Level\n  writeSites : Nat\n  readSites : Nat\n"
+               "  /-- sites where the object itself is returned / bound / stored / handed to a call that is no pure consumer;\n"
+               "  for a memo: calls by which the memoised function looks at something that is not an argument -/\n"
+               "  escapeSites : Nat\n  deriving DecidableEq, Repr\n")
+    out.append("/-- an attribute bound or mutated through `self` in a class of midgard/parsers -/\n"
+               "structure InstRow where\n  id : String\n  /-- bound in `__init__` of the class or an ancestor -/\n  ctorInit : Bool\n"
+               "  /-- the other methods that bind / create it -/\n  createdIn : String\n"
+               "  /-- not bound in `__init__` and the name is a class-level mutable object of the class or an ancestor -/\n"
+               "  shadowsClassCell : Bool\n  /-- bound to a module-level or class-level object or a mutable default argument -/\n"
+               "  aliasOfShared : Bool\n  deriving DecidableEq, Repr\n")
     out.append("inductive PluginKind where\n  | parserClass | parserFactory | writerFunction | fieldTypeClass | broken\n  deriving DecidableEq, Repr\n")
     out.append(f"/-- modules scanned: {len(mods)} -/\ndef scannedModules : Nat := {len(mods)}\n")
     out.append("/-- every mutable process-wide object found (constant tables included) -/\ndef cells : List CellRow := "
                + lean_list([r.replace(".class,", ".«class»,") for r in rows]) + "\n")
+    out.append("/-- per-object state of the parser classes -/\ndef instanceCells : List InstRow := " + lean_list(inst_rows) + "\n")
+    for c in cells:
+        if c.escapes:
+            out.append(f"-- {c.id}: escapes {', '.join(c.escapes[:6])}{' …' if len(c.escapes) > 6 else ''}")
+    out.append("")
     out.append("/-- cells with at least one write site inside a function body: state that changes at run time -/\n"
                "def effects : List String := " + lean_list([lean_str(c.id) for c in effects]) + "\n")
     for c in effects:
@@ -608,6 +888,8 @@ def generate() -> Tuple[str, Dict]:
     out.append("end Midgard.Generated.ParserEffects\n")
     info = {"cells": len(cells), "effects": [c.id for c in effects], "file_writes": file_writes, "plugins": plug,
             "guarded_sites": guarded_sites, "closure": closure, "all_cells": {c.id: c.kind for c in cells},
+            "levels": {c.id: c.level for c in cells}, "escapes": {c.id: c.escapes for c in cells if c.escapes},
+            "instance_cells": inst_info, "class_bases": {k: sorted(v) for k, v in bases.items()},
             "effect_sites": {c.id: {"writes": c.writes, "reads": c.reads, "kind": c.kind} for c in effects}}
     return "\n".join(out), info
 
